@@ -10,7 +10,7 @@ import (
 
 func init() {
 	register("C08", propMeta{
-		Explanation: "E-GUARD + E-CONST + E-PANIC. O-1 stripping dominates every export: the description serialised in BrokerChannel.Negotiate and SignalingServer.sendAnswer is, on every path not behind the true edge of the respective keepLocalAddresses flag, a fresh description whose SDP is util.StripLocalAddresses of the original; probetest strips unconditionally; the flag fields are written only from the configuration. O-2 range table = RFC table: util.IsLocal is read as a disjunction of conjunctions of byte tests (b[k] == c, b[k] & m == c) over ip.To4() and the 16-byte ip; each true path is converted syntactically to a CIDR prefix and the resulting set is compared with {10/8, 172.16/12, 192.168/16, 100.64/10, 169.254/16, fc00::/7}. O-3 filter shape: in the candidate loop of StripLocalAddresses the skip is reachable only through IsICECandidate, a successful UnmarshalCandidate, Type() == host, ParseIP != nil and one of IsLocal/IsUnspecified/IsLoopback (all three occur); every other path appends the loop's attribute; each media section gets a slice made inside its own iteration; parse/marshal errors return the input unchanged. O-4 no termination construct reachable from StripLocalAddresses/IsLocal, and every constant index into an address is behind an edge that establishes its length (To4() != nil, len(ip) == 16). O-2 is evaluated exactly since the second seeding round: byte tests including < and <= ranges become value sets, each feasible true path a product of per-byte sets, and the union is compared with the table over all 65536 leading IPv4 byte pairs and 256 leading IPv6 bytes.",
+		Explanation: "E-GUARD + E-CONST + E-PANIC. O-1 stripping dominates every export: the description serialised in BrokerChannel.Negotiate and SignalingServer.sendAnswer is, on every path not behind the true edge of the respective keepLocalAddresses flag, a fresh description whose SDP is util.StripLocalAddresses of the original; probetest strips unconditionally; the flag fields are written only from the configuration. O-2 range table = RFC table: util.IsLocal is read as a disjunction of conjunctions of byte tests (b[k] == c, b[k] & m == c) over ip.To4() and the 16-byte ip; each true path is converted syntactically to a CIDR prefix and the resulting set is compared with {10/8, 172.16/12, 192.168/16, 100.64/10, 169.254/16, fc00::/7}. O-3 filter shape: in the candidate loop of StripLocalAddresses the skip is reachable only through IsICECandidate, a successful UnmarshalCandidate, Type() == host, ParseIP != nil and one of IsLocal/IsUnspecified/IsLoopback (all three occur); every other path appends the loop's attribute; each media section gets a slice made inside its own iteration; parse/marshal errors return the input unchanged. O-4 no termination construct reachable from StripLocalAddresses/IsLocal, and every constant index into an address is behind an edge that establishes its length (To4() != nil, len(ip) == 16). O-2 is evaluated exactly since the second seeding round: byte tests including < and <= ranges become value sets, each feasible true path a product of per-byte sets, and the union is compared with the table over all 65536 leading IPv4 byte pairs and 256 leading IPv6 bytes. Added after the third seeding round: ice.UnmarshalCandidate receives the attribute value itself (no trimming or re-formatting); the caller's string is returned only on error edges, never as a 'nothing removed' shortcut decided per media section.",
 		NotDecided:  "pion/sdp and pion/ice parsing and re-marshalling fidelity ('every other field preserved') - third-party; IPv4-mapped spellings (handled by To4, stdlib).",
 		Assumptions: []string{"net.IP.To4 returns nil or a 4-byte slice", "third-party SDP/ICE code does not panic"},
 	}, runC08)
@@ -162,9 +162,30 @@ func (c *Ctx) checkConstIndexGuards(rule string, fns []*ssa.Function) {
 			if !strings.HasPrefix(ts, "[]") {
 				return // arrays are checked by the compiler
 			}
+			// covered by the library-table rule for Split/FindStringSubmatch results (checkConstIndexes)
+			if cc, _, okc := callResult1(strip(x)); okc {
+				switch calleeName(cc) {
+				case "strings.Split", "strings.SplitN", "bytes.Split", "bytes.SplitN":
+					if k == 0 {
+						return
+					}
+				case "(*regexp.Regexp).FindStringSubmatch", "(*regexp.Regexp).FindSubmatch":
+					return
+				}
+			}
 			n++
 			key := fmt.Sprintf("%s constant index [%d] of %s", p.FnName(fn), k, describeOperand(p, x))
 			var edges []Edge
+			// len(x) > j (j >= k), len(x) >= j (j > k), len(x) != 0 for index 0: in any spelling
+			isLenX := func(v ssa.Value) bool {
+				cc, _, okc := callResult1(strip(v))
+				return okc && calleeName(cc) == "builtin.len" && (cc.Call.Args[0] == x || sameLoad(cc.Call.Args[0], x))
+			}
+			edges = append(edges, cmpEdges(fn, ">", isLenX, func(v ssa.Value) bool { j, okj := constInt(v); return okj && j >= k })...)
+			edges = append(edges, cmpEdges(fn, ">=", isLenX, func(v ssa.Value) bool { j, okj := constInt(v); return okj && j > k })...)
+			if k == 0 {
+				edges = append(edges, eqEdges(fn, false, isLenX, func(v ssa.Value) bool { j, okj := constInt(v); return okj && j == 0 })...)
+			}
 			// x = y.To4(), x != nil
 			if cc, _, okc := callResult(x); okc && calleeName(cc) == "(net.IP).To4" && k < 4 {
 				edges = append(edges, nilCheckEdges(fn, false, func(v ssa.Value) bool { return v == x })...)
